@@ -73,7 +73,7 @@ def parse_model_sres(tok):
     if tok.startswith("N:"):
         _, m, e = tok.split(":")
         ee = unbits(e)
-        if abs(ee) > 6000:
+        if abs(ee) > 20000:
             return ("Nbig", unbits(m), ee)
         return ("N", sci_value(unbits(m), ee))
     return (tok,)
@@ -120,9 +120,11 @@ def gen_string(rng, maxlen=16):
     if kind < 14:
         return rng.choice(YAML_SPELLINGS)
     if kind < 20:
-        # a number-like spelling built from pieces
-        return "".join(rng.choice(["0x", "0o", "+", "-", ".", "e", "E", "1", "0", "9", "5", "_", "x", "4", "00", "e4", "e-"])
-                       for _ in range(rng.range(1, 7)))
+        # a number-like spelling built from pieces (exponents kept below 10^4: the loader computes 10^e exactly)
+        import re
+        t = "".join(rng.choice(["0x", "0o", "+", "-", ".", "e", "E", "1", "0", "9", "5", "_", "x", "4", "00", "e4", "e-"])
+                    for _ in range(rng.range(1, 7)))
+        return re.sub(r"([eE][+-]?\d{4})\d+", lambda m: m.group(1), t)
     n = rng.below(maxlen + 1)
     out = []
     for _ in range(n):
